@@ -73,6 +73,11 @@ macro_rules
           | ((try dsimp only [PS.frame] at *); simp_all; done)
           | (intro hN; (try dsimp only at *); simp_all; done))
       | (dsimp only at *; omega)
+      | (refine ⟨?_, ?_, ?_, ?_, ?_⟩ <;> first
+          | omega
+          | (dsimp only at *; omega)
+          | (simp only [*]; done)
+          | ((try dsimp only at *); simp_all; done))
       | (refine ⟨?_, ?_, ?_⟩ <;> first
           | omega
           | (dsimp only at *; omega)
